@@ -16,6 +16,8 @@ ANCHORS = [
 ]
 DECIDING = ["add-hook:add_record", "add-hook:add_prefix", "fresh-differential"]
 RULE = (
+    "bounded world: every history of at most 2 (quick) / 3 (thorough) add_record calls over 8 records x case_sensitive x "
+    "merge on a fixed two-record converter (coverage.small_world_exhaustive). Random part: "
     "case = a history of 1-8 add_record / add_prefix operations (all merge x case_sensitive combinations) on a random "
     "strict starting converter with any delimiter; each new record is fresh, or overlaps an existing record on the CURIE "
     "side, the URI side, both, only up to letter case, or matches two existing records. After every return or raise "
@@ -93,8 +95,68 @@ def ask(c, kind, q):
     return probe.okey((call(c.standardize_prefix, q), call(c.get_record, q)[0]))
 
 
+# ---- bounded-exhaustive small world: every history of <= 2 (quick) / <= 3 (thorough) operations over 8 records x 4 flag
+# combinations on a fixed two-record converter ---------------------------------------------------------------------------
+import itertools
+
+SMALL_START = [spec.Rec("a", "u/", ("A",), (), "^\\d+$"), spec.Rec("b", "v/", (), ("v2/",), None)]
+SMALL_NEW = [
+    spec.Rec("c", "w/", (), (), None),               # fresh
+    spec.Rec("a", "x/", (), (), "^x$"),              # CURIE-side overlap
+    spec.Rec("d", "u/", (), (), None),               # URI-side overlap
+    spec.Rec("a", "u/", (), (), None),               # both sides, same record
+    spec.Rec("B", "y/", (), (), None),               # overlap only up to case (CURIE side)
+    spec.Rec("e", "U/", (), (), None),               # overlap only up to case (URI side)
+    spec.Rec("a", "v/", (), (), None),               # matches two records
+    spec.Rec("f", "z/", ("b",), ("w/",), None),      # through synonyms; clashes with the fresh record's URI prefix later
+]
+SMALL_OPS = [(i, cs, mg) for i in range(len(SMALL_NEW)) for cs in (True, False) for mg in (False, True)]
+SMALL_CHUNK = 60
+_SMALL = {}
+
+
+def _world(tier):
+    if tier not in _SMALL:
+        lmax = 3 if tier == "thorough" else 2
+        _SMALL[tier] = [h for k in range(1, lmax + 1) for h in itertools.product(range(len(SMALL_OPS)), repeat=k)]
+    return _SMALL[tier]
+
+
+def small_world_case(ctx, g):
+    api, S = ctx.api, probe.S
+    for hist in _world(ctx.tier)[g * SMALL_CHUNK:(g + 1) * SMALL_CHUNK]:
+        c = api.Converter([gen.mk_record(api, r) for r in SMALL_START])
+        for oi in hist:
+            ri, cs, mg = SMALL_OPS[oi]
+            call(c.add_record, gen.mk_record(api, SMALL_NEW[ri]), case_sensitive=cs, merge=mg)
+        after = list(spec.snapshot(c))
+        if spec.is_unique(after):
+            fresh = api.Converter([gen.mk_record(api, r) for r in after])
+            for k, q in probe_strings(after, ":", None):
+                probe.evaluated("fresh-differential")
+                if ask(c, k, q) != ask(fresh, k, q):
+                    violation(["C05"], "fresh-differential", "incremental-converter-answers-differently-from-fresh-one",
+                              start=[spec.rec_dict(r) for r in SMALL_START], delimiter=":",
+                              history=[{"new": spec.rec_dict(SMALL_NEW[SMALL_OPS[o][0]]), "case_sensitive": SMALL_OPS[o][1], "merge": SMALL_OPS[o][2]} for o in hist],
+                              query=q, incremental=ask(c, k, q), fresh=ask(fresh, k, q))
+                    break
+        S.counters["wl:small-world-histories"] += 1
+    probe.note_key(f"small-world:chunk{g % 64}", True)
+
+
+def EXHAUSTIVE(tier, counters):
+    n = counters.get("wl:small-world-histories", 0)
+    total = len(_world(tier))
+    return {
+        "small_world_exhaustive": n == total,
+        "explanation": f"{n} of {total} histories enumerated: every sequence of at most {3 if tier == 'thorough' else 2} add_record calls over 8 records (fresh, CURIE-side / URI-side / both / case-only overlap, two-record match, through synonyms) x case_sensitive x merge on a fixed two-record converter; random histories beyond that are sampling",
+    }
+
+
 def run_case(ctx, g, rng):
     api, S = ctx.api, probe.S
+    if g * SMALL_CHUNK < len(_world(ctx.tier)):
+        small_world_case(ctx, g)
     d = rng.choice(gen.DELIMS)
     start = gen.records(rng, d, 0, 4, allow_delim=True, patterns=True)
     c, how = gen.build(api, start, d, rng)
